@@ -115,6 +115,9 @@ func init() {
 		for i, g := range gram.L4() {
 			cases = append(cases, tcase{fmt.Sprint("L4-", i), g.Text()})
 		}
+		// tokens declared in the lexical part that no syntax rule mentions (numbered after the syntax terminals)
+		cases = append(cases, tcase{"unused-tokens", "zz : 'z' ;\naa : 'a' ;\n!ws : ' ' ;\nmid : 'm' ;\nS : mid S | \"x\" ;\n"},
+			tcase{"lexer-only", "zz : 'z' ;\naa : 'a' ;\n!ws : ' ' ;\n"})
 		s1 := gram.S1(3, false)
 		stride := 40
 		if tier == "thorough" {
@@ -133,7 +136,7 @@ func init() {
 		for i, c := range cases {
 			texts[i] = c.text
 		}
-		for _, flags := range [][]string{{"-a"}, {"-a", "-no_lexer"}, {"-a", "-zip"}} {
+		for _, flags := range [][]string{{"-a"}, {"-a", "-no_lexer"}, {"-a", "-zip"}, {"-a", "-v"}, {"-a", "-debug_lexer", "-debug_parser"}} {
 			sw.run(texts, flags, false, false, func(o *GenOut) {
 				c := cases[o.Idx]
 				mu.Lock()
@@ -177,7 +180,7 @@ func init() {
 		}
 		driverLoop(c, r, "C10", "tokmap", "tokmap", 0, nil, "lookups")
 		r.Set("compiled_token_packages", c.Pkgs)
-		r.Set("rule", "(A) hostile spellings (token/production names, string literals over all ASCII punctuation and awkward sequences), seeds, S2, L4, S1 and ErrFam picks x {default, -no_lexer, -zip}: token.go read back: INVALID 0, end-of-input 1, no duplicates, idMap exactly the inverse of typeMap as Go strings, exactly the grammar's terminals numbered consecutively (terminals derived by the harness's own tokenizer); the lexer's Accept numbers and the parser's columns are addressed through these names by the C01/C02/C05 products; (B) compiled: Type(Id(i)) = i, Id(Type(n)) = n, unknown names -> INVALID, scanning each string-literal terminal's lexeme yields its number; distinct = (case, flags) and terminal names looked up")
+		r.Set("rule", "(A) hostile spellings (token/production names, string literals over all ASCII punctuation and awkward sequences), seeds, S2, L4, S1 and ErrFam picks x {default, -no_lexer, -zip, -v, debug flags}: token.go read back: INVALID 0, end-of-input 1, no duplicates, idMap exactly the inverse of typeMap as Go strings, exactly the grammar's terminals numbered consecutively (terminals derived by the harness's own tokenizer); the lexer's Accept numbers and the parser's columns are addressed through these names by the C01/C02/C05 products; (B) compiled: Type(Id(i)) = i, Id(Type(n)) = n, unknown names -> INVALID, scanning each string-literal terminal's lexeme yields its number; distinct = (case, flags) and terminal names looked up")
 		return r.Finish(nil)
 	}
 }
